@@ -22,7 +22,10 @@ def modelled : List String := [
   "babyjub.<decls>@babyjub.go",
   "babyjub.<decls>@eddsa.go",
   "babyjub.<decls>@helpers.go",
-  "utils.<decls>@utils.go"
+  "utils.<decls>@utils.go",
+  "module.<deps>@go.mod",
+  "module.<deps>@go.sum",
+  "module.<deps>@vendor"
 ]
 
 theorem source_pinned : modelled.all (same I3.Gen.fingerprints) = true := by decide +kernel
@@ -30,6 +33,6 @@ theorem source_pinned : modelled.all (same I3.Gen.fingerprints) = true := by dec
 theorem function_set_pinned : (["babyjub.", "utils."] : List String).all (sameKeys I3.Gen.fingerprints) = true := by
   decide +kernel
 
-theorem modelled_nonempty : 14 = modelled.length := by decide
+theorem modelled_nonempty : 17 = modelled.length := by decide
 
 end I3.Props.C12
